@@ -2,7 +2,7 @@
 # usage: seed_matrix.sh [ids...]    for every seeded change: fresh worktree of /repo HEAD + patch, whole test suite, demo,
 # then the quick tier of the property's own check (plus related checks listed in EXTRA); results -> seeded/<id>/last_run.json
 cd "$(dirname "${BASH_SOURCE[0]}")/.."
-declare -A EXTRA=( [C12-2]="C10" [C08-1]="C13" [C08-2]="C11" [C14-2]="C09" [C16-2]="C05" [C05-1]="C03" [C03-1]="C05" [C04-1]="C06" [C02-2]="C19" [C03-2]="C04" [C07-4]="C15" [C19-4]="C18" [C04-4]="C05" [C05-4]="C01" [C02-4]="C16" [C12-3]="C15" [C05-6]="C13" [C13-6]="C08" [C08-5]="C13" [C08-6]="C11" [C11-7]="C10" [C16-6]="C05" [C05-5]="C16" [C02-5]="C19" [C02-6]="C14" [C04-5]="C01" [C18-6]="C03" )
+declare -A EXTRA=( [C12-2]="C10" [C08-1]="C13" [C08-2]="C11" [C14-2]="C09" [C16-2]="C05" [C05-1]="C03" [C03-1]="C05" [C04-1]="C06" [C02-2]="C19" [C03-2]="C04" [C07-4]="C15" [C19-4]="C18" [C04-4]="C05" [C05-4]="C01" [C02-4]="C16" [C12-3]="C15" [C05-6]="C13" [C13-6]="C08" [C08-5]="C13" [C08-6]="C11" [C11-7]="C10" [C16-6]="C05" [C05-5]="C16" [C02-5]="C19" [C02-6]="C14" [C04-5]="C01" [C18-6]="C03" [C05-7]="C15" [C15-8]="C12" [C16-7]="C02" [C03-7]="C05" )
 IDS=${@:-$(ls seeded)}
 export OMP_NUM_THREADS=1 MKL_NUM_THREADS=1
 for id in $IDS; do
